@@ -231,6 +231,15 @@ func (l *sessionManager) A(sid string, k int) {
 	}
 }`, want: map[string]string{"A": "MapDelete@WLock/1 MapWrite@WLock/1"}},
 
+		{name: "local name of the mutex, deferred closure", methods: `
+func (l *sessionManager) A(sid string) {
+	mu := &l.sessionLocksMtx
+	mu.Lock()
+	defer func() { mu.Unlock() }()
+	locks := l.sessionLocks
+	for k := range locks { delete(locks, k) }
+}`, want: map[string]string{"A": "MapRead@WLock/1 MapRange@WLock/1 MapDelete@WLock/1"}},
+
 		{name: "lock on one path only", methods: `
 func (l *sessionManager) A(sid string, c bool) {
 	if c { l.sessionLocksMtx.Lock() }
